@@ -420,3 +420,9 @@ CASES.append(unmarshal_case(True))
 for _k in ("species", "reaction", "network", "grid", "graph", "system"):
     CASES.append(reader_case(_k))
 CASES.append(explicit_quantity_case())
+
+# the state that reaches the seam when none is given is the default one: its units clauses (density in the network's units x
+# cell volume in the space's units, expressed in the requested system) are C13's cases, part of this check as well
+from props import C13 as _C13
+CASES.append(_C13.species_state_case("dict:e0,default", 2, "grid"))
+CASES.append(_C13.species_state_case("dict:e0,default", 2, "graph"))
